@@ -120,7 +120,7 @@ class C13(PropertyCheck, BayesMixin, SegMixin, MiscMixin):
     id = "C13"
     title = "Mixture-model densities and posteriors are exact and equivariant"
     lean_modules = ["NipyVerif.Props.C13", "NipyVerif.Props.C13B", "NipyVerif.Props.C13S",
-                    "NipyVerif.Props.C13K"]
+                    "NipyVerif.Props.C13K", "NipyVerif.Props.C13G"]
     driver = "Drivers/C13.lean"
     rule = ("cases are (model family, parameters, data) tuples from a seeded PRNG: dims 1..4, 1..6 components, "
             "dyadic means/data, exactly representable SPD or positive diagonal precisions, simplex weights, "
@@ -161,7 +161,7 @@ class C13(PropertyCheck, BayesMixin, SegMixin, MiscMixin):
                   "map_from_ppm with both mask options, binarize_ppm), label/translation/scale equivariance of _Mstep, of "
                   "the conjugate normal-Wishart update for every hard labelling, of VBGMM._Mstep and of vm_step, cache "
                   "coherence after any operation history, make_edges memory safety and completeness, ownership of the "
-                  "caller's ppm, KL(p||p) = 0; numeric only: normalising constants, special-function values, integrals")
+                  "caller's ppm, KL(p||p) = 0; diagonal-precision component and mixture densities: the expression of unweighted_likelihood_ (regenerated from the source) is a product of Mathlib normal densities and integrates to one over R^d for every d (Props/C13G; np.log/np.exp are parameters; full precision only for d = 1); numeric only: the other normalising constants, special-function values, integrals")
     finding_keys = {}
 
     # ---- tie (a): constants transcribed from mrf.c -------------------------
@@ -177,7 +177,46 @@ class C13(PropertyCheck, BayesMixin, SegMixin, MiscMixin):
         txt = c13_tables.lean_text({"ngb6": NGB6, "ngb26": NGB26})
         from harness import cshim
         cshim.build("segmentation")      # once, in the parent: workers then only dlopen the cached library
-        return [("NipyVerif/Gen/C13Tables.lean", txt)]
+        return [("NipyVerif/Gen/C13Tables.lean", txt), ("NipyVerif/Gen/C13Like.lean", self._like_source())]
+
+    @staticmethod
+    def _like_source():
+        """the statements of `GMM.unweighted_likelihood_` (per-component loop body), as source text: the
+        real-analysis theorems of Props/C13G.lean are about exactly these expressions"""
+        import ast
+        path = os.path.join(REPO, "nipy/algorithms/clustering/gmm.py")
+        try:
+            tree = ast.parse(open(path).read())
+        except Exception as e:        # noqa: BLE001
+            raise TieBroken(f"gmm.py does not parse: {e}")
+        fn = next((n for n in ast.walk(tree) if isinstance(n, ast.FunctionDef) and n.name == "unweighted_likelihood_"), None)
+        if fn is None:
+            raise TieBroken("GMM.unweighted_likelihood_ not found")
+        loop = next((n for n in fn.body if isinstance(n, ast.For)), None)
+        if loop is None or ast.unparse(loop.iter) != "range(self.k)":
+            raise TieBroken("unweighted_likelihood_: the loop over components is not `for k in range(self.k)`")
+        stmts = []
+
+        def walk(body, ctx):
+            for st in body:
+                if isinstance(st, ast.If):
+                    walk(st.body, ctx + [ast.unparse(st.test)])
+                    walk(st.orelse, ctx + ["not (" + ast.unparse(st.test) + ")"])
+                elif isinstance(st, ast.Expr) and isinstance(st.value, ast.Constant):
+                    continue
+                else:
+                    stmts.append((" and ".join(ctx), ast.unparse(st)))
+        walk(loop.body, [])
+
+        def q(x):
+            return '"' + x.replace("\\", "\\\\").replace('"', '\\"') + '"'
+        return ("/- GENERATED by harness/props/C13.py from nipy/algorithms/clustering/gmm.py\n"
+                "   (`GMM.unweighted_likelihood_`, body of the loop over components).  Do not edit. -/\n"
+                "namespace NipyVerif.Gen.C13\n"
+                "/-- (branch condition, statement) in source order -/\n"
+                "def likeLoop : List (String × String) :=\n  [" +
+                ",\n   ".join(f"({q(c)}, {q(t)})" for c, t in stmts) + "]\n"
+                "end NipyVerif.Gen.C13\n")
 
     # ---- generation ---------------------------------------------------------
     def generate(self, rng, tier):
